@@ -13,6 +13,13 @@ def gen_mgr_case(rng, ctx, cfg_fn: Callable, max_n_quick=60, max_n_thorough=200,
     n = rng.choice([0, 1, 2, 3]) if rng.random() < 0.08 else rng.randint(4, max_n_thorough if ctx.thorough else max_n_quick)
     rows, meta = gen.gen_stream(rng, n)
     cfg = cfg_fn(rng, rows, meta)
+    if cfg.get("tf") and rows and rows[0]["ts"] >= 0 and rng.random() < 0.15:
+        # sub-second timestamps: a timeframe manager works on whole seconds (the fraction is dropped
+        # before bucketing), whichever way the candles reach it
+        us = rng.choice([1, 500000, 700000, 999999])
+        for r in rows:
+            r["us"] = us
+        meta["subsecond"] = True
     init, chunks = gen.gen_chunks(rng, rows)
     ops = []
     for ch in chunks:
